@@ -60,8 +60,13 @@ def make(pid, check_program, nontrivial, extra_feats=None):
     def run_templates(spec):
         col = Collector()
         recorded = recorded_features(pid)
-        _, depth, max_runs = spec
-        for label, src in gp.template_programs():
+        _, depth, max_runs = spec[:3]
+        if len(spec) > 3:
+            # a slice of the exhaustive jump-arm family: (shard, nshards)
+            progs = gp.jump_arm_programs()[spec[3] :: spec[4]]
+        else:
+            progs = gp.template_programs()
+        for label, src in progs:
             status, sig, msg, stats = check_program(src, [0, 1], depth, max_runs, recorded)
             col.count("status_" + status)
             if status == "fail":
@@ -91,6 +96,11 @@ def make(pid, check_program, nontrivial, extra_feats=None):
             specs += [("pfuzz", fuzz_mod, seed, s, 250 if tier == "quick" else 6000, d_, r_, off) for s in range(8 if tier == "quick" else 16)]
         ex, depth, runs, pex, pshards = quick if tier == "quick" else thorough
         specs.append(("tmpl", max(depth, 10), max(runs, 60)))
+        # the exhaustive jump-arm family: every 3rd program (offset by the seed) in the quick tier, all in the thorough tier
+        if tier == "quick":
+            specs += [("tmpl", 8, 40, (seed % 3) + 3 * s, 24) for s in range(8)]
+        else:
+            specs += [("tmpl", 10, 60, s, 16) for s in range(16)]
         nsh = 16 if tier == "quick" else 32
         specs += [("p", seed, s, ex, depth, runs, off, None) for s in range(nsh)]
         for f in off:
